@@ -167,7 +167,7 @@ PROPS = {
              "Every 16th case the exporter is replaced by a new exporting process of the same observation domain on the same long-lived "
              "collector (its template ids restart at 256, so earlier ids are redefined), and every delivered message object is retained and "
              "re-read after the next deliveries: its content must not change once delivered. "
-             "Non-trivial = delivered and (>= 2 fields or >= 2 records or a boundary length); distinct by (config, elements, values). ALSO: Every 24th plain-UDP case is followed by a burst: 34..44 (template, data) pairs sent back to back while the collector's consumer stands still, which must then come out in the order sent, each exact (a second burst must be complete if the first lost a datagram).",
+             "Non-trivial = delivered and (>= 2 fields or >= 2 records or a boundary length); distinct by (config, elements, values). ALSO: Every 24th plain-UDP case is followed by a burst: 34..44 (template, data) pairs sent back to back while the collector's consumer stands still, which must then come out in the order sent, each exact (a second burst must be complete if the first lost a datagram). The stream collectors run with TemplateTTL 1 s; one stream case in 97 sends its records again after 1.3 s of silence (template lifetimes are a matter of UDP). In a burst, loss and deliveries not attributable to the burst are not judged.",
 
              COMMON_ASSUME + [ONE_MSG] + ["pion/dtls drops records above its 8 KiB receive buffer while Write succeeds: larger DTLS messages are sent, compared if they arrive, only counted if not",
                               "a 65535-byte value cannot travel end to end (header + set header + prefix leave 65512): that boundary is C15's and C09's"],
@@ -226,7 +226,7 @@ PROPS = {
              "MinExpiryTime + (earliest - now). Every scan: callbacks only for flows with a passed deadline, all of them when no callback "
              "fails, ascending deadline order (ties free), none twice, inactive expiry removes / active expiry keeps and re-arms; after a "
              "failed callback the flow must still be held and scheduled. Exhaustive: all words to the stated depth over 2 (and 3) keys "
-             "with every failing-key set; random: length <= 60 over 8 keys. Non-trivial = >= 1 scan with >= 1 callback; distinct by the word.",
+             "with every failing-key set; random: length <= 60 over 8 keys. Non-trivial = >= 1 scan with >= 1 callback; distinct by the word. Every third record operation of a history travels in one message together with a record of the next key.",
              COMMON_ASSUME + ["a history runs in microseconds of real time while deadlines are minutes apart, so real-time comparisons in the code agree with the virtual-minute model"],
              "runtime monitor: deadline model + structural invariants of map/heap at a hook after every operation; injected callback failures; bounded-exhaustive + random histories"),
     "C07": P(False, (8, 16), 16, (1200, 5400), 50000, 10000, "exploration",
@@ -240,7 +240,7 @@ PROPS = {
              "are non-empty); an uncorrelated flow is never exported, must be gone after MaxRetries+1 consecutive expiries, and while "
              "retried must stay held and scheduled with both deadlines in the future. Exhaustive: every word up to length 5 (quick) / 6 "
              "(thorough) x every combination; random words of length 7..30. Non-trivial = correlation-required flow with >= 2 records or a "
-             "scan; distinct by the case tuple.",
+             "scan; distinct by the case tuple. In half of the cases the destination node lays its records out in another element order under the same template id.",
              COMMON_ASSUME + ["within one flow the correlation requirement and each node's metadata are constant (the statement's preconditions)",
                               "that an uncorrelated flow is retried exactly MaxRetries times is not in the statement and is not asserted"],
              "runtime monitor: correlation state-machine model + field-merge accept-sets, checked at every scan and after every record; bounded-exhaustive words"),
@@ -257,7 +257,7 @@ PROPS = {
              "flow twice in one scan, exports <= deadlines passed, both slots of a single-stream flow equal. pool: Start with 1..16 workers "
              "fed 50..450 inter-node flows (one source and one destination record each, shuffled) through the channel, Stop, then key set, "
              "correlation, delta sums, merged names and end time compared with the sequential result. Non-trivial = >= 2 operations "
-             "overlapping in time on one key (lin) / exports happened (stress) / run completed (pool); distinct by the (call, return) order. ALSO: Half of the lin histories have a goroutine holding the process lock (read-only walk with a slow callback) and one polling GetNumFlows. The sequential specification is nondeterministic and about thread-safety only (sums exact, only existing and ready flows exported, never twice at one virtual instant, existence consistent, removal only by a scan).",
+             "overlapping in time on one key (lin) / exports happened (stress) / run completed (pool); distinct by the (call, return) order. ALSO: Half of the lin histories have a goroutine holding the process lock (read-only walk with a slow callback) and one polling GetNumFlows. The sequential specification is nondeterministic and about thread-safety only (sums exact, only existing and ready flows exported, never twice at one virtual instant, existence consistent, removal only by a scan). Half of the lin histories and one producer step in 40 of the stress runs feed records without addresses (refused, no effect).",
              COMMON_ASSUME + ["each (flow, node) stream has one producer: the aggregation contract (per-node end times increase) must hold in every linearization",
                               "porcupine Unknown (60 s timeout) is inconclusive"],
              "porcupine linearizability check of recorded histories against a sequential model + conservation checker at quiescence; race detector; GOMAXPROCS sweep"),
@@ -284,7 +284,7 @@ PROPS = {
              "template messages through a header line if the rendering has one and otherwise by position -, in the right format; every invalid request must get a 4xx; reset must empty the store; every returned entry "
              "must show every field of every record by element name and value. One history in 13 makes 17000-19000 arrivals (cap exceeded "
              "4x); one in 13 is concurrent (writer + 4 readers + resetter under the race detector: contiguous ascending id ranges, no more "
-             "than count, nothing from the future). Non-trivial = exceeds the cap or has a reset between queries; distinct by history.",
+             "than count, nothing from the future). Non-trivial = exceeds the cap or has a reset between queries; distinct by history. One string value in three carries a character special to some rendering layer (printf verbs, JSON/HTML escaping, quotes, multi-byte runes).",
              COMMON_ASSUME + ["an octetArray value may be rendered as a decimal list, hex (with or without 0x), base64 or raw bytes"],
              "runtime monitor: in-package recorder (go -overlay) + offline sliding-window model over unique message ids; race detector",
              extra_build=_c20_build),
@@ -301,7 +301,7 @@ PROPS = {
              "validity failures and DNS ServerName mismatches judged; wrong/no SAN with an empty ServerName recorded but not judged. "
              "Negative cells must not establish a session / deliver; positive cells must establish one and deliver. The quick tier runs "
              "every cell on IPv4; thorough adds IPv6, 3 rounds of fresh certificates and the DTLS-exporter-vs-plaintext-peer cell. Every "
-             "cell is non-trivial; distinct by cell. ALSO: Two more server-certificate kinds lie three minutes outside their validity period (issued when the cell runs).",
+             "cell is non-trivial; distinct by cell. ALSO: Two more server-certificate kinds lie three minutes outside their validity period (issued when the cell runs). Cells where the exporter holds an expired / foreign certificate of its own and the collector asks for none are run but not judged.",
              COMMON_ASSUME + ["'not delivered' is observed for 600 ms after the send attempt (normal delivery: < 5 ms)",
                               "pion/dtls skips name verification when ServerName is empty or an IP literal: those DTLS cells are recorded, not judged",
                               "crypto/tls and pion/dtls are trusted as documented"],
